@@ -51,6 +51,11 @@ func (d *PathDecoder) bodySchemaCandidates(ctx context.Context, body *hclsyntax.
 			if !isAttributeDeclarable(body, name, attr) {
 				continue
 			}
+			if schema.Extensions != nil &&
+				((schema.Extensions.Count && name == "count") || (schema.Extensions.ForEach && name == "for_each")) {
+				// extension attribute (suggested above) takes precedence
+				continue
+			}
 			if len(prefix) > 0 && !strings.HasPrefix(name, string(prefix)) {
 				continue
 			}
